@@ -14,7 +14,8 @@ from .. import tables as T
 from ..common import cps, pmap, judge, import_hl7apy, exc_name
 from . import er7mc
 
-PUNCT = "|^&~\\#!@$%*+=:;/?<>[]{}()-,'`\""      # no '.': it occurs in the version id every MSH-12 carries
+PUNCT = "|^&~\\#!@$%*+=:;/?<>[]{}()-,'`\"_"     # no '.': it occurs in the version id every MSH-12 carries
+# ('_' is a word character for regular expressions; with it in the set the structure id ADT_A01 is left out of MSH-9)
 KEYS = ["FIELD", "COMPONENT", "SUBCOMPONENT", "REPETITION", "ESCAPE", "TRUNCATION"]
 
 
@@ -52,7 +53,7 @@ def build(v, ecs, lvl, variant=0):
         m = Message("ADT_A01", version=v, validation_level=lvl, encoding_chars=dict(ec))
         m.msh.msh_7 = "20200101"
         m.msh.msh_10 = "X1"
-        parts9 = ["ADT", "A01"] + (["ADT_A01"] if v >= "2.3.1" else [])
+        parts9 = ["ADT", "A01"] + (["ADT_A01"] if v >= "2.3.1" and "_" not in ecs else [])
         m.msh.msh_9 = ecs[1].join(parts9)
         msh_fields = [[[[cps(ecs[0])]]], [[[cps(ecs[1] + ecs[3] + ecs[4] + ecs[2] + (ecs[5] if six else ""))]]],
                       [[[[]]]], [[[[]]]], [[[[]]]], [[[[]]]], [[[cps("20200101")]]], [[[[]]]], [[[cps(x)] for x in parts9]], [[[cps("X1")]]], [[[[]]]],
@@ -96,6 +97,12 @@ def build(v, ecs, lvl, variant=0):
                 reps.append(comps)
             fields[r["i"] - 1] = reps
         doc.append({"name": cps("PID"), "fields": fields})
+        nk = [r for r in (T.seg_rows(v, "NK1") or []) if r["name"] == "NK1_2" and r["dt"] == "XPN"]
+        xp = T.dt_rows(v, "XPN") or []
+        if variant == 1 and nk and xp and xp[0]["kind"] == "complex" and len(xp[0]["subs"]) >= 2:
+            # a segment and a field that do not exist yet, reached by traversal: the text is read with the message's set
+            m.nk1.nk1_2.xpn_1 = "k" + ecs[2] + "l"
+            doc.append({"name": cps("NK1"), "fields": [[[[[]]]], [[[cps("k"), cps("l")]]]]})
         if variant == 1 and lvl == 2:
             z = m.add_segment("ZXT")
             z.zxt_1 = "a" + ecs[1] + "b" + ecs[2] + "c"
